@@ -94,6 +94,14 @@ def check(ctx):
 
     option_used(ctx, ["dask/dataframe/dask_expr/_reductions.py"], floor=20)
     min_count(ctx, ["dask/dataframe/core.py", "dask/dataframe/dask_expr/_collection.py"], floor=2)
+    from ._phases import kwargs_consistent
+
+    kwargs_consistent(ctx, ["dask/dataframe/dask_expr/_reductions.py"], floor=6)
+    # ---------------- len() of a concatenation is the sum of the lengths only along axis 0
+    ln = model.klass("dask/dataframe/dask_expr/_reductions.py", "Len").own_methods["_simplify_down"]
+    sums = [r for r in returns(ln) if "sum((Len(obj) for obj in self.frame.dependencies()))" in unparse(r.value)]
+    ok = len(sums) == 1 and any("isinstance(self.frame, Concat)" in unparse(e) and pol for e, pol in cfg_of(ln).facts(sums[0])) and any("self.frame.operand('axis') == 0" in unparse(e) and pol for e, pol in cfg_of(ln).facts(sums[0]))
+    ctx.ob("ALG.len-of-concat", ln, "Len(Concat(...)) -> sum of the parts' lengths only when axis == 0", ok, "" if ok else "the rewrite also fires for axis=1: len() of a column-wise concat becomes k*n")
 
 
 VARIANTS = [
